@@ -65,8 +65,8 @@ MUTANTS_C12RAY = [
          new="    real_type const a = ipow<2>(dir[0]) + ipow<2>(dir[1]) + ipow<2>(dir[2]);",
          expect=R + "CylAligned<x>" + RAY),
     dict(id="c12ray-cyl-on-off-swapped", prop="C12", file=CA,
-         old="    if (on_surface == SurfaceState::on)\n    {\n        return solve_quadric();",
-         new="    if (on_surface == SurfaceState::off)\n    {\n        return solve_quadric();",
+         old="    if (on_surface == SurfaceState::on)\n    {\n        // Solve degenerate case (c=0)\n",
+         new="    if (on_surface == SurfaceState::off)\n    {\n        // Solve degenerate case (c=0)\n",
          expect=R + "CylAligned<y>" + RAY),
     dict(id="c12ray-cylc-normal-axis", prop="C12", file=CC,
          old="    norm[to_int(V)] = pos[to_int(V)];\n\n    return make_unit_vector(norm);",
@@ -96,6 +96,8 @@ MUTANTS_C12RAY = [
          new="        real_type const n_pos = pos[to_int(Axis::x)];", expect=R + "PlaneAligned<y>" + DIST),
     dict(id="c12ray-planealigned-normal-negative", prop="C12", file=PA,
          old="    norm[to_int(T)] = 1.;", new="    norm[to_int(T)] = -1.;", expect=R + "PlaneAligned<x>" + NRM),
+    dict(id="c12ray-planealigned-normal-not-unit", prop="C12", file=PA,
+         old="    norm[to_int(T)] = 1.;", new="    norm[to_int(T)] = 2.;", expect=R + "PlaneAligned<z>" + NRM),
     # ---------------------------------------------------------------- outside the vocabulary: exit 2
     dict(id="c12ray-sphere-sense-sqrt", prop="C12", file=SP,
          old="    return real_to_sense(dot_product(tpos, tpos) - radius_sq_);",
@@ -146,4 +148,41 @@ MUTANTS_C12RAY = [
     dict(id="benign-c12ray-gq-normal-doubled", prop="C12", benign=True, file=GQ,
          old="    return make_unit_vector(norm);",
          new="    norm[0] *= 2;\n    norm[1] *= 2;\n    norm[2] *= 2;\n    return make_unit_vector(norm);"),
+]
+
+
+def _gq_gradient_helper(zrow):
+    """GeneralQuadric refactored as in seeded/c12e: a private const helper `calc_gradient(pos)` feeds
+    both the linear coefficient b and calc_normal; `zrow` is the third component of the helper."""
+    return [
+        (GQ, "  private:\n    // Second-order terms (a, b, c)\n",
+             "  private:\n    inline CELER_FUNCTION Real3 calc_gradient(Real3 const& pos) const;\n\n"
+             "    // Second-order terms (a, b, c)\n"),
+        (GQ, "    real_type b = (2 * a_ * x + d_ * y + f_ * z + g_) * u\n"
+             "                  + (2 * b_ * y + d_ * x + e_ * z + h_) * v\n"
+             "                  + (2 * c_ * z + e_ * y + f_ * x + i_) * w;",
+             "    Real3 const grad = this->calc_gradient(pos);\n"
+             "    real_type b = grad[0] * u + grad[1] * v + grad[2] * w;"),
+        (GQ, "CELER_FUNCTION Real3 GeneralQuadric::calc_normal(Real3 const& pos) const\n{\n",
+             "CELER_FUNCTION Real3 GeneralQuadric::calc_normal(Real3 const& pos) const\n{\n"
+             "    return make_unit_vector(this->calc_gradient(pos));\n}\n\n"
+             "CELER_FUNCTION Real3 GeneralQuadric::calc_gradient(Real3 const& pos) const\n{\n"),
+        (GQ, "    Real3 norm;\n"
+             "    norm[0] = 2 * a_ * x + d_ * y + f_ * z + g_;\n"
+             "    norm[1] = 2 * b_ * y + d_ * x + e_ * z + h_;\n"
+             "    norm[2] = 2 * c_ * z + e_ * y + f_ * x + i_;\n\n"
+             "    return make_unit_vector(norm);",
+             "    return {2 * a_ * x + d_ * y + f_ * z + g_,\n"
+             "            2 * b_ * y + d_ * x + e_ * z + h_,\n"
+             "            " + zrow + "};"),
+    ]
+
+
+MUTANTS_C12RAY += [
+    # the independently seeded change seeded/c12e (helper shared by b and the normal, e_/f_ swapped in
+    # its z row) and the same refactoring done correctly: judged through the same-object call
+    dict(id="c12ray-gq-gradient-helper-swap-ef", prop="C12",
+         edits=_gq_gradient_helper("2 * c_ * z + e_ * x + f_ * y + i_"), expect=R + "GeneralQuadric" + RAY),
+    dict(id="benign-c12ray-gq-gradient-helper", prop="C12", benign=True,
+         edits=_gq_gradient_helper("2 * c_ * z + e_ * y + f_ * x + i_")),
 ]
